@@ -18,7 +18,8 @@ from lib.hist import address
 from lib.kvimpl import model_event
 
 THEOREMS_TIED = ["C06_kv_resubmission_refused", "C06_kv_accepted_once", "C06_sql_accepted_once", "C06_sql_ok_iff_inserted", "C06_sql_refused_no_trace", "C06_sql_resubmission_no_change", "C06_kv_stored_after_ack",
-                 "C06_kv_duplicate_no_change", "C06_kv_abort_no_trace"]
+                 "C06_kv_duplicate_no_change", "C06_kv_abort_no_trace", "C06_kv_storable_write_succeeds",
+                 "C06_kv_unstorable_has_long_key"]
 
 T0 = 1700000000
 
@@ -340,11 +341,59 @@ def run(report, tier, seed):
             for backend in ("sql", "kv"):
                 burst_duplicates(report, backend, rng, keys, i)
             inflight_duplicate(report, drv, rng, i)
+        storable_cases(report, drv, rng, 400 if tier == "quick" else 8000)
         for i in range(14 if tier == "quick" else 300):
             for backend in ("sql", "kv"):
                 run_session(report, drv, backend, rng, keys, i)
     finally:
         drv.close()
+
+
+def storable_cases(report, drv, rng, n):
+    """kv.check_storable — the refusal at the door that keeps OK=true from being followed by an aborted write — vs the Lean
+    `checkStorable` (Props/C06Storable.lean): index keys around LMDB's 511-byte bound (one-letter / expiration / delegation / unindexed
+    names x values of 440 … 480 bytes, ASCII and multi-byte), created_at / kind in and out of the four-byte range, integers in tags in
+    and out of msgpack's range"""
+    from nostr_relay.storage import kv
+    from nostr_relay.errors import StorageError
+    from aionostr.event import Event
+    from props.c04 import tv
+
+    for i in range(n):
+        tags = []
+        for _ in range(rng.choice([0, 1, 1, 2, 3])):
+            name = rng.choice(["t", "e", "d", "é", "expiration", "delegation", "client", "tt", ""])
+            unit = rng.choice(["a", "a", "é", "漢", "\U0001f600"])
+            target = rng.choice([0, 1, 100, 440, 460, 468, 469, 470, 471, 472, 473, 480, 600])
+            value = unit * max(0, (target - len(name.encode())) // len(unit.encode()) + rng.choice([-1, 0, 0, 1]))
+            tag = [name, value] + rng.choice([[], [], ["x" * 600]])
+            tags.append(tag)
+        strings_only = True
+        if rng.random() < 0.2:
+            tags.append(["n", rng.choice([2 ** 63, 2 ** 64 - 1, 2 ** 64, -2 ** 63, -2 ** 63 - 1, 7])])
+            strings_only = False
+        ev = Event(id=rng.randbytes(32).hex(), pubkey=rng.randbytes(32).hex(), sig=rng.randbytes(64).hex(), content="c" * rng.choice([0, 5, 40]),
+                   created_at=rng.choice([0, 1700000000, 2 ** 32 - 1, 2 ** 32, -1, 2 ** 63]), kind=rng.choice([1, 1, 1, 30023, 65535, 2 ** 32 - 1, 2 ** 32, -1]),
+                   tags=tags)
+        try:
+            kv.check_storable(ev)
+            impl = True
+        except StorageError:
+            impl = False
+        report.count("storable_cases")
+        report.count("storable_refused" if not impl else "storable_admitted")
+        if not strings_only:
+            # non-string tag items are outside the Lean KV event (its tags are strings); the record side is covered by C04's mp.record
+            continue
+        mev = {"id": ev.id, "pubkey": ev.pubkey, "created_at": ev.created_at, "kind": ev.kind,
+               "tags": [[x.encode("utf-8").hex() for x in t] for t in tags]}
+        row = {"id": ev.id, "created": str(ev.created_at), "kind": str(ev.kind), "pubkey": ev.pubkey,
+               "content": ev.content.encode("utf-8").hex(), "tags": tv(ev.tags), "sig": ev.sig}
+        m = drv.call({"op": "kv.storable", "ev": mev, "row": row})
+        if m != impl:
+            report.correspondence_break("kv.check_storable", {"kind": "storable", "event": ev.to_json_object()}, impl, m)
+        report.case(("storable", ev.created_at, ev.kind, repr([(t[0], len(t[1].encode())) for t in tags])), nontrivial=bool(tags),
+                    sample={"storable": impl, "tag_value_bytes": [len(t[1].encode()) for t in tags]})
 
 
 def replay(report, path):
